@@ -4,6 +4,16 @@ import json, os, sys
 ROOT = os.path.dirname(os.path.dirname(os.path.abspath(__file__)))
 
 CHECKS = {
+ "C05": ("fault_enumeration",
+         "systematic mutation of generated histories: a 40-field alteration catalogue applied at every tick (exhaustive for short histories) through a ProvenanceStore wrapper and through rebuilt services, plus structural edits and checkpoint alterations; oracle = typed error or identical verified result",
+         "Generated multi-head histories are first verified untampered (commit-id binding, parent = previous tip, gap-free, every BTR segment, append refusal of gaps/duplicates/unknown parents); then every single-field alteration and structural edit must be rejected with a typed error or produce exactly the original verified result (per-tick hash triple + parents, final root, store content). Unbound metadata fields are tallied, not flagged.",
+         "Tamper wrappers use the public ProvenanceStore trait; suffix bundles not yet covered.",
+         "DESIGN.md §4 C05"),
+ "C07": ("exploration",
+         "property-based testing over generated histories with exhaustive enumeration of (start, target, checkpoint subset) for short histories, random cursor walks and forks; oracle = checkpoint-free replay, harness-side patch fold and the live ledger",
+         "Every seek path, checkpoint subset and fork must materialise the same WorldlineState as a checkpoint-free replay, which must equal the harness's own fold of patches from U0 and the state/hashes the live runtime held at that tick.",
+         "Live content is observable at pass boundaries only (intermediate ticks of a pass are compared on hashes).",
+         "DESIGN.md §4 C07"),
  "C20": ("fault_enumeration",
          "stateful model-based property testing (proptest op sequences against a reference map) + enumeration of file-level faults on the disk tier + model test of the semantic retention index",
          "MemoryTier and DiskTier are driven by generated op sequences (incl. reopen) and compared with a reference map after every step; every stored file of generated disk stores is corrupted by byte flips, truncation at every (or 40 evenly spaced) lengths, extension, replacement, deletion and stray temp files - get must return the exact content, absence or a typed HashMismatch; RetainedBlobIndex is checked against a coordinate map incl. conflicts, aliasing, ranges, budgets and missing material.",
